@@ -69,7 +69,12 @@ func c12Failing(r *rt.Rand, text bool) *gen.Node {
 			gen.Bin("/", gen.Float("1.5"), gen.Call("strlen", gen.Str(""))),
 			gen.Bin("/", gen.Int(3), gen.Bin("-", gen.Float("0.5"), gen.Float("0.5"))),
 			gen.Bin("/", gen.Float("4.5"), gen.Bin("-", gen.Float("0.5"), gen.Float("0.5"))),
-			gen.Bin("/", gen.Int(3), gen.Call("float", gen.Str("0")))}[r.Intn(5)]
+			gen.Bin("/", gen.Int(3), gen.Call("float", gen.Str("0"))),
+			// wave 15 (C12-ab): the failing operand as the right factor of a product whose left factor is zero -
+			// nothing in the documentation lets a zero excuse the other operand from being evaluated
+			gen.Bin("*", gen.Call("strlen", gen.Str("")), gen.Bin("/", gen.Int(10), gen.Call("strlen", gen.Str("")))),
+			gen.Bin("*", gen.Bin("-", gen.Call("strlen", gen.Str("a")), gen.Int(1)), gen.Bin("/", gen.Int(1), gen.Bin("-", gen.Call("strlen", gen.Str("b")), gen.Int(1)))),
+			gen.Bin("*", gen.Int(0), gen.Bin("/", gen.Int(3), gen.Call("strlen", gen.Str(""))))}[r.Intn(8)]
 	} else {
 		// unequal lengths, the shorter vector on either side
 		n = []*gen.Node{gen.Call("l2_distance", gen.Call("list", gen.Int(1), gen.Int(2)), gen.Call("list", gen.Int(1))),
